@@ -127,7 +127,54 @@ template <class T, glm::qualifier Q, int N> static void reg_square() {
 	add_op(nm<T, Q>("div_mat", shape.c_str()), strdup((std::string(aM) + " " + aW).c_str()), oM, 'U', 'R', 256, FN { STM(out, LDM<N, N, T, Q>(in) / LDM<N, N, T, Q>(in + N * N)); }, SC { return N * amax<T>(in, 0, N * N); });
 }
 
+// gtx / gtc helpers built on the core functions (each one more function that is compared across SIMD levels, configuration macros,
+// optimisation levels and compilers, run under the sanitizers, by two threads, and through the two-call history)
+template <class T, glm::qualifier Q> static void reg_gtx() {
+	const char tl = (char)SA<T>::L;
+	typedef glm::vec<3, T, Q> V3; typedef glm::vec<4, T, Q> V4; typedef glm::vec<2, T, Q> V2;
+	auto name = [&](const char* b, const char* shape) { return nm<T, Q>(b, shape); };
+	const char* v3 = spec("@F3", tl), * v3v3 = spec("@F3 @F3", tl), * o3 = spec("@3", tl), * o1 = spec("@1", tl), * o16 = spec("@16", tl);
+	// gtx/rotate_vector
+	add_op(name("gtx_rotateX", "vec3"), spec("@F3 @A1", tl), o3, 'U', 'U', 16, FN { ST(out, glm::rotateX(VL<3, T, Q>::ld(in), SA<T>::get(in[3]))); }, SC { return 2 * amax<T>(in, 0, 3); });
+	add_op(name("gtx_rotateY", "vec4"), spec("@F4 @A1", tl), spec("@4", tl), 'U', 'U', 16, FN { ST(out, glm::rotateY(VL<4, T, Q>::ld(in), SA<T>::get(in[4]))); }, SC { return 2 * amax<T>(in, 0, 4); });
+	add_op(name("gtx_rotateZ", "vec3"), spec("@F3 @A1", tl), o3, 'U', 'U', 16, FN { ST(out, glm::rotateZ(VL<3, T, Q>::ld(in), SA<T>::get(in[3]))); }, SC { return 2 * amax<T>(in, 0, 3); });
+	add_op(name("gtx_rotate_axis", "vec3"), spec("@F3 @A1 @U3", tl), o3, 'U', 'U', 64, FN { ST(out, glm::rotate(VL<3, T, Q>::ld(in), SA<T>::get(in[3]), VL<3, T, Q>::ld(in + 4))); }, SC { return 4 * amax<T>(in, 0, 3); });
+	add_op(name("gtx_rotate2d", "vec2"), spec("@F2 @A1", tl), spec("@2", tl), 'U', 'U', 16, FN { ST(out, glm::rotate(VL<2, T, Q>::ld(in), SA<T>::get(in[2]))); }, SC { return 2 * amax<T>(in, 0, 2); });
+	// gtx/norm, gtx/projection, gtx/perpendicular, gtx/component_wise, gtx/normal, gtx/closest_point
+	add_op(name("gtx_length2", "vec3"), v3, o1, 'U', 'U', 8, FN { ST1(out, glm::length2(VL<3, T, Q>::ld(in))); }, SC { long double m = amax<T>(in, 0, 3); return 3 * m * m; });
+	add_op(name("gtx_distance2", "vec4"), spec("@F4 @F4", tl), o1, 'U', 'U', 8, FN { ST1(out, glm::distance2(VL<4, T, Q>::ld(in), VL<4, T, Q>::ld(in + 4))); }, SC { long double m = amax<T>(in, 0, 8); return 16 * m * m; });
+	add_op(name("gtx_l1Norm", "vec3"), v3v3, o1, 'U', 'U', 8, FN { ST1(out, glm::l1Norm(VL<3, T, Q>::ld(in), VL<3, T, Q>::ld(in + 3))); }, SC { return 6 * amax<T>(in, 0, 6); });
+	add_op(name("gtx_l2Norm", "vec3"), v3v3, o1, 'U', 'R', 8, FN { ST1(out, glm::l2Norm(VL<3, T, Q>::ld(in), VL<3, T, Q>::ld(in + 3))); }, SC { return 4 * amax<T>(in, 0, 6); });
+	add_op(name("gtx_lMaxNorm", "vec3"), v3v3, o1, 'U', 'U', 4, FN { ST1(out, glm::lMaxNorm(VL<3, T, Q>::ld(in), VL<3, T, Q>::ld(in + 3))); }, SC { return 2 * amax<T>(in, 0, 6); });
+	add_op(name("gtx_proj", "vec3"), spec("@F3 @U3", tl), o3, 'U', 'U', 32, FN { ST(out, glm::proj(VL<3, T, Q>::ld(in), VL<3, T, Q>::ld(in + 3))); }, SC { return 4 * amax<T>(in, 0, 3); });
+	add_op(name("gtx_perp", "vec3"), spec("@F3 @U3", tl), o3, 'U', 'U', 32, FN { ST(out, glm::perp(VL<3, T, Q>::ld(in), VL<3, T, Q>::ld(in + 3))); }, SC { return 4 * amax<T>(in, 0, 3); });
+	add_op(name("gtx_compAdd_compMul", "vec4"), spec("@F4", tl), spec("@2", tl), 'U', 'U', 8, FN { V4 v = VL<4, T, Q>::ld(in); ST1(out, glm::compAdd(v)); ST1(out + 1, glm::compMul(v)); }, SC { long double m = 1 + amax<T>(in, 0, 4); return 4 * m * m * m * m; });
+	add_op(name("gtx_compMin_compMax", "vec3"), v3, spec("@2", tl), 'V', 'V', 0, FN { V3 v = VL<3, T, Q>::ld(in); ST1(out, glm::compMin(v)); ST1(out + 1, glm::compMax(v)); });
+	add_op(name("gtx_triangleNormal", "vec3"), spec("@F3 @F3 @F3", tl), o3, 'U', 'R', 4096, FN { ST(out, glm::triangleNormal(VL<3, T, Q>::ld(in), VL<3, T, Q>::ld(in + 3), VL<3, T, Q>::ld(in + 6))); }, SC { return 1.0L; },
+	       SC {  // degenerate (thin) triangles: the normal is ill-conditioned
+		       long double a[3], b[3]; for (int i = 0; i < 3; ++i) { a[i] = (long double)SA<T>::get(in[i]) - (long double)SA<T>::get(in[3 + i]); b[i] = (long double)SA<T>::get(in[i]) - (long double)SA<T>::get(in[6 + i]); }
+		       long double cx = a[1] * b[2] - a[2] * b[1], cy = a[2] * b[0] - a[0] * b[2], cz = a[0] * b[1] - a[1] * b[0];
+		       long double n = sqrtl(cx * cx + cy * cy + cz * cz), la = sqrtl(a[0] * a[0] + a[1] * a[1] + a[2] * a[2]), lb = sqrtl(b[0] * b[0] + b[1] * b[1] + b[2] * b[2]);
+		       return (la * lb > 0) ? n / (la * lb) : 0.0L; });
+	add_op(name("gtx_closestPointOnLine", "vec3"), spec("@F3 @F3 @F3", tl), o3, 'U', 'U', 4096, FN { ST(out, glm::closestPointOnLine(VL<3, T, Q>::ld(in), VL<3, T, Q>::ld(in + 3), VL<3, T, Q>::ld(in + 6))); }, SC { return 4 * (1 + amax<T>(in, 0, 9)); },
+	       SC { long double d = 0; for (int i = 0; i < 3; ++i) { long double e = (long double)SA<T>::get(in[6 + i]) - (long double)SA<T>::get(in[3 + i]); d += e * e; } return d; });  // a == b: direction undefined
+	// gtx/transform, gtx/euler_angles (builders only: no angle extraction, whose conditioning near gimbal lock is C04's subject)
+	add_op(name("gtx_translate", "mat4x4"), v3, o16, 'V', 'V', 0, FN { STM(out, glm::translate(VL<3, T, Q>::ld(in))); });
+	add_op(name("gtx_scale", "mat4x4"), v3, o16, 'V', 'V', 0, FN { STM(out, glm::scale(VL<3, T, Q>::ld(in))); });
+	add_op(name("gtx_rotate", "mat4x4"), spec("@A1 @U3", tl), o16, 'U', 'U', 64, FN { STM(out, glm::rotate(SA<T>::get(in[0]), VL<3, T, Q>::ld(in + 1))); }, SC { return 4.0L; });
+	add_op(name("gtx_eulerAngleXYZ", "mat4x4"), spec("@A3", tl), o16, 'U', 'U', 32, FN { STM(out, glm::eulerAngleXYZ(SA<T>::get(in[0]), SA<T>::get(in[1]), SA<T>::get(in[2]))); }, SC { return 4.0L; });
+	add_op(name("gtx_eulerAngleYXZ", "mat4x4"), spec("@A3", tl), o16, 'U', 'U', 32, FN { STM(out, glm::eulerAngleYXZ(SA<T>::get(in[0]), SA<T>::get(in[1]), SA<T>::get(in[2]))); }, SC { return 4.0L; });
+	add_op(name("gtx_yawPitchRoll", "mat4x4"), spec("@A3", tl), o16, 'U', 'U', 32, FN { STM(out, glm::yawPitchRoll(SA<T>::get(in[0]), SA<T>::get(in[1]), SA<T>::get(in[2]))); }, SC { return 4.0L; });
+	add_op(name("gtx_orientate3", "mat3x3"), spec("@A3", tl), spec("@9", tl), 'U', 'U', 32, FN { STM(out, glm::orientate3(VL<3, T, Q>::ld(in))); }, SC { return 4.0L; });
+	// gtc/round on floating arguments (exact multiples and powers of two are value-preserving in every build)
+	add_op(name("gtc_ceilMultiple", "vec3"), spec("@F3 @P3", tl), o3, 'V', 'V', 0, FN { ST(out, glm::ceilMultiple(VL<3, T, Q>::ld(in), VL<3, T, Q>::ld(in + 3))); });
+	add_op(name("gtc_floorMultiple", "vec3"), spec("@F3 @P3", tl), o3, 'V', 'V', 0, FN { ST(out, glm::floorMultiple(VL<3, T, Q>::ld(in), VL<3, T, Q>::ld(in + 3))); });
+	add_op(name("gtc_roundMultiple", "vec2"), spec("@F2 @P2", tl), spec("@2", tl), 'V', 'V', 0, FN { ST(out, glm::roundMultiple(VL<2, T, Q>::ld(in), VL<2, T, Q>::ld(in + 2))); });
+	(void)sizeof(V2);
+}
+
 template <class T, glm::qualifier Q> static void reg_tq() {
+	reg_gtx<T, Q>();
 	reg_geom<T, Q, 1>(); reg_geom<T, Q, 2>(); reg_geom<T, Q, 3>(); reg_geom<T, Q, 4>();
 	reg_cross<T, Q>();
 	reg_hidden<T, Q>();
